@@ -67,6 +67,13 @@ CLAIMED = {
          "histogram is permutation invariant. otsu (running class means) and rc are exact-rational models of the code compared with "
          "the rational specification and with the fresh build; implementation outputs are judged against the exact rational optimum",
          "Rocq proof + Python-ast translator + differential correspondence (exact rationals)"),
+ "C20": ("proof", "Coq theorems over R about element functions RE-TRANSLATED from colors.py on every run (matrices, constants and "
+         "the orientation of every np.choose from the source): white -> D65 with Y = 1, black -> 0, every XYZ component "
+         "non-decreasing in every channel (monotone branches + interval proof at the knee), the two sRGB transfer functions mutually "
+         "inverse, Lab white L* = 100 with |a*|,|b*| bounded (coq-interval), grey weights sum to 1, sepia clipped; stretch over Q: "
+         "minimum -> lower bound, non-decreasing, inside the range. The implementation is judged on the RGB lattice and by exact order "
+         "predicates on generated stretch requests",
+         "Rocq proof (Reals + Interval) + Python-ast translator + property oracles on the implementation"),
 }
 NOT_YET = "check not built yet in this round (see DESIGN.md section 8 for the plan)"
 ALL = ["C%02d" % i for i in range(1, 21)]
